@@ -27,8 +27,9 @@ META = {
                   "velocity and covariance float arithmetic is NOT proved; a NaN passes both tests: lemma pso_nan_passes); variation operators "
                   "preserve the encoded domain (C06's validity theorems) enters the skeleton invariant as hypothesis Op_dom; evaluator contract "
                   "as in C01; Integer.nbits is taken from the implementation (its float logarithm is C17's tie) under the stated bound "
-                  "2^(nbits-1) <= max-min < 2^nbits. Termination of the CMA-ES rejection loop is not claimed (fuel). That each algorithm is an "
-                  "instance of the skeleton is validated on the sampled traces only. Elements of permutations/subsets are integers in the "
+                  "2^(nbits-1) <= max-min < 2^nbits. Termination of the CMA-ES rejection loop is not claimed (fuel). The step models of all 15 algorithms (Model/AlgSteps.v) "
+                  "are proved to keep the invariant (c07_<alg>_step_in_domain; operators / position update / sampler / generator are abstract "
+                  "functions with the domain contracts above); that the real code follows the models is validated on the sampled traces only. Elements of permutations/subsets are integers in the "
                   "harness. Trusted: Coq kernel + VM, the harness wrappers. No axioms.",
     "technique": "Coq proof (domain lemmas per producer + skeleton invariant) + trace validation of every user-function call (vm_compute) + function-case correspondence + independent oracle",
 }
